@@ -642,7 +642,8 @@ impl Analyzable for StructConstructor {
             Some(symbol) => {
                 bail_report!(Error::invalid_symbol("struct type", symbol, &self.r#type));
             }
-            _ => unreachable!(),
+            // not in scope: already reported by the analysis of the identifier
+            None => return r#type,
         };
 
         for case in type_def.cases.iter() {
